@@ -904,6 +904,12 @@ fn main() {
         if case % 20 == 3 {
             for m in flatten_probe(&mut r) { writeln!(w, "X colls flatten probe :: {m}").unwrap(); }
         }
+        if case % 20 == 17 {
+            for m in wrappers_probe(&mut r) { writeln!(w, "X colls wrappers probe :: {m}").unwrap(); }
+        }
+        if case % 10 == 9 {
+            for m in sources_probe(&mut r) { writeln!(w, "X colls sources probe :: {m}").unwrap(); }
+        }
         if case % 10 == 1 || case % 10 == 6 {
             let (notes, cline) = producers_probe(&mut r);
             if let Some(c) = cline { writeln!(w, "{c}").unwrap(); }
